@@ -203,6 +203,7 @@ def direct_ctx(ctx: pg.Ctx, qubits):
     d = pg.Ctx(ctx.spec, mappable=False, register=reg, device=ctx.device, chan_ids=ctx.chan_ids,
                dmm_ids=ctx.dmm_ids)
     d.qids = list(ctx.qids)                  # index -> id resolves against the DECLARED order
+    d.direct_n = k
     d.detmap = ctx.detmap                    # the same detuning map objects as the template
     return d, ids
 
@@ -211,7 +212,7 @@ def run_direct(dctx: pg.Ctx, ops: list, assign: dict, decl: dict):
     seq = dctx.new_template()
     mk = lambda x: pg.evaluate(x, assign, decl)  # noqa: E731
     for i, op in enumerate(ops):
-        r = pg.try_op(seq, dctx, op, mk)
+        r = pg.try_op(seq, dctx, op, mk, resolve_index=True)
         if r[0] != "ok":
             return seq, (i, r[1])
     return seq, None
